@@ -1,9 +1,21 @@
 #!/bin/sh
-# Every legitimate, behaviour-CHANGING but property-preserving change under benign/L*-* must leave ALL checks silent.
+# Every legitimate, behaviour-CHANGING but property-preserving change under benign/L*-* and benign/M*-* must leave the checks silent.
 # usage: tools/legit_sweep.sh [prefix]
+#   default: the checks of the area the change touches; ALL=1 runs all 20 checks per change (slow: ~3 min each on an idle machine)
 cd /verif
-for d in benign/${1:-L}*-*; do
+for d in benign/${1:-[LM]}*-*; do
   [ -f $d/patch.diff ] || continue
-  out=$(tools/try_benign.sh $d C01 C02 C03 C04 C05 C06 C07 C08 C09 C10 C11 C12 C13 C14 C15 C16 C17 C18 C19 C20 2>&1)
-  echo "== $(basename $d): $(echo "$out" | grep 'repo tests' | cut -c1-60) | $(echo "$out" | grep -c silent) silent | alarms: $(echo "$out" | grep -E 'ALARM|APPLY|not clean' | tr '\n' ' ')"
+  b=$(basename $d); a=$(echo $b | sed 's/^[LM]\([0-9]\)-.*/\1/')
+  case $a in
+    1) C="C01 C02 C03 C04 C05 C06 C07 C08 C09 C12 C19";;
+    2) C="C01 C10 C11 C12 C13 C14 C15 C16 C20";;
+    3) C="C01 C08 C09 C10 C11 C12 C13 C14 C15 C16 C17 C20";;
+    4) C="C17 C18 C19";;
+    5) C="C19";;
+    6) C="C20 C17";;
+    *) C="";;
+  esac
+  if [ -n "$ALL" ] || [ -z "$C" ]; then C="C01 C02 C03 C04 C05 C06 C07 C08 C09 C10 C11 C12 C13 C14 C15 C16 C17 C18 C19 C20"; fi
+  out=$(tools/try_benign.sh $d $C 2>&1)
+  echo "== $b: $(echo "$out" | grep 'repo tests' | cut -c1-60) | $(echo "$out" | grep -c silent) silent | alarms: $(echo "$out" | grep -E 'ALARM|APPLY|not clean' | tr '\n' ' ')"
 done
